@@ -18,7 +18,9 @@ RULE = ('random lineages (depth<=6, and 1.5 % deep ones: 120, 1100 and around ev
         'code mentions; str-subclass instances as requested permission / principals; principals as list/tuple/set/frozenset; root with '
         '__parent__ = None or without the attribute; falsy resources) x principal subsets x permission, each decided through ACLHelper, '
         'ACLAuthorizationPolicy, request.has_permission (with and without context argument, with and without a security policy), '
-        'security.principals_allowed_by_permission (with / without authorization policy), view_execution_permitted; non-trivial = at '
+        'security.principals_allowed_by_permission (with / without authorization policy), view_execution_permitted (one secured view / '
+        'a view without permission / no view / a MultiView of sub-views with predicates and permissions of their own); 4 % of the '
+        'cases carry one malformed item (__acl__ = None, a falsy callable, an ACE that is not a 3-sequence); non-trivial = at '
         'least one ACE in the lineage matches principal AND permission (so the decision is not the default deny); distinct by full case')
 ASSUMPTIONS = ['ACE actions are compared with == against the Allow/Deny constants; principals and requested permissions are str',
                'a callable __acl__ is modelled by the list it returns (also when it returns a one-shot iterator: the translator '
@@ -38,10 +40,11 @@ TRUSTED = ['translator harness/c11/translate.py: its PRIMITIVE TABLE (which Pyth
            'every run (C11_generated_*_is_model, C11_permission_test_is_containment, C11_generated_lineage_is_model)',
            'primitives of coq/Model/C11_base.v (sets as duplicate-free lists; is_str / has_iter / normalise / contains on the four '
            'kinds of permission-field objects; is_allow/is_deny; decision) as models of the Python operations the table maps to them',
-           'public entry points: ACLAuthorizationPolicy is translated (delegation); request.has_permission, LegacySecurityPolicy.permits, '
-           'security.principals_allowed_by_permission are hand-modelled (Model/C11.v has_permission, sec_principals_allowed) under '
-           'name-blanked shape pins; view_execution_permitted is pinned and exercised; all run in real registries by every case '
-           '(harness/c11/entry.py)',
+           'public entry points: ACLAuthorizationPolicy (delegation), request.has_permission, LegacySecurityPolicy.permits, '
+           'security.principals_allowed_by_permission and view_execution_permitted are TRANSLATED (harness/c11/translate_entry.py: '
+           'straight-line code over an abstract registry; table in its docstring) and run in real registries by every case '
+           '(harness/c11/entry.py); MultiView.match/get_views/__permitted__ are name-blanked pins modelled by view_permitted',
+           'malformed inputs (permits_x in Model/C11.v): hand-written, validated by the correspondence stream only',
            'AllPermissionsList.__iter__/__eq__, ACLPermitsResult/ACLAllowed/ACLDenied (shape-pinned); viewderivers.secured_view / '
            '_secured_view / preserve_view_attrs (name-blanked pins: they make the __permitted__ view_execution_permitted calls); '
            'module- and class-level statements of authorization.py, security.py, location.py (skeleton pin, harness/c11/skeleton.py)']
@@ -125,6 +128,7 @@ def pool():
 
 def pick_perm(rng):
     return rng.choice(pool()) if rng.random() < 0.12 else rng.choice(PERMS)
+BAD_KINDS = ('aclnone', 'falsycallable', 'falsyiterable', 'ace2', 'aceint')
 PFORMS = ('list', 'tuple', 'set', 'frozenset')
 # values of loc['callable']: list / callable->list / generator method / tuple / a callable that, while it computes the ACL,
 # calls back into the same long-lived helper and policy objects with OTHER arguments (re-entrancy)
@@ -241,6 +245,24 @@ def gen_case(rng):
         case['pform'] = rng.choice(PFORMS[1:])         # the principals are handed over as a tuple / set / frozenset
     if rng.random() < 0.2:
         case['noacl'] = 'raises'
+    if rng.random() < 0.04:
+        # MALFORMED input (outside the property's quantifier; modelled by permits_x): one location whose __acl__ is None, a
+        # falsy callable (iterable or not), or whose ACL holds an ACE that is not a 3-sequence
+        for loc in lin:
+            if loc is not None:
+                loc.pop('share', None)
+        ks = [k for k, loc in enumerate(lin) if loc is not None]
+        if ks:
+            k = rng.choice(ks)
+            case['bad'] = {'loc': k, 'kind': rng.choice(BAD_KINDS), 'at': rng.randrange(len(lin[k]['aces']) + 1)}
+    r = rng.random()
+    if r < 0.30:
+        # what view_execution_permitted finds under the view name: nothing / a view without permission / a MultiView of
+        # two or three sub-views with request_param predicates (holding or not) and permissions of their own (or none)
+        kind = 'none' if r < 0.04 else 'plain' if r < 0.10 else 'multi'
+        case['vep'] = {'kind': kind}
+        if kind == 'multi':
+            case['vep']['subs'] = [[rng.random() < 0.5, rng.choice(PERMS + [None])] for _ in range(rng.choice([2, 2, 3]))]
     return case
 
 
@@ -314,6 +336,20 @@ def valid(case):
         if case.get('root', 'none') not in ('none', 'missing') or case.get('pform', 'list') not in PFORMS \
                 or case.get('noacl', 'missing') not in ('missing', 'raises'):
             return False
+        b = case.get('bad')
+        if b is not None:
+            if b.get('kind') not in BAD_KINDS or type(b.get('loc')) is not int or not 0 <= b['loc'] < len(case['lineage']) \
+                    or case['lineage'][b['loc']] is None or type(b.get('at')) is not int \
+                    or not 0 <= b['at'] <= len(case['lineage'][b['loc']]['aces']) \
+                    or any('share' in loc for loc in case['lineage'] if loc):
+                return False
+        v = case.get('vep')
+        if v is not None:
+            if v.get('kind') not in ('none', 'plain', 'multi'):
+                return False
+            if v['kind'] == 'multi' and not (2 <= len(v['subs']) <= 3 and all(
+                    len(x) == 2 and type(x[0]) is bool and (x[1] is None or x[1] in PERMS) for x in v['subs'])):
+                return False
         return isinstance(case['permission'], str) and case['permission'] != '' and \
             all(isinstance(p, str) and p for p in case['principals'])
     except Exception:
@@ -341,8 +377,25 @@ def _src(case, k):
     return k
 
 
+def _trunc(case):
+    """(the well-formed part of the lineage that the walk of permits() sees before the malformed item, does it raise there)
+    -- the Python twin of [trunc] in Model/C11.v"""
+    b = case.get('bad')
+    lin = case['lineage']
+    if b is None:
+        return lin, False
+    k = b['loc']
+    if b['kind'] in ('aclnone', 'falsycallable'):
+        return lin[:k], True
+    if b['kind'] == 'falsyiterable':
+        return lin[:k] + [dict(lin[k], aces=[])] + lin[k + 1:], False      # never called: the empty static ACL it is
+    return lin[:k] + [dict(lin[k], aces=lin[k]['aces'][:b['at']])], True
+
+
 def to_wire(case):
     lin = []
+    if case.get('bad'):
+        case = dict(case, lineage=_trunc(case)[0] or [None])
     for k, loc in enumerate(case['lineage']):
         if loc is not None:
             loc = case['lineage'][_src(case, k)]
@@ -350,13 +403,17 @@ def to_wire(case):
             lin.append([])
         else:
             lin.append([[[{'Allow': 1, 'Deny': 0}.get(a[0], 2), a[1], _perm_wire(a[2])] for a in loc['aces']]])
-    return [lin, list(case['principals']), case['permission'], 1 if case.get('root') == 'missing' else 0]
+    v = case.get('vep')
+    views = case['permission'] if v is None else 0 if v['kind'] == 'none' else 1 if v['kind'] == 'plain' else \
+        [[1 if ok else 0] + ([q] if q is not None else []) for ok, q in v['subs']]
+    return [lin, list(case['principals']), case['permission'], 1 if case.get('root') == 'missing' else 0, views]
 
 
 def from_wire(case, raw):
-    if raw == [['bad']] or len(raw) != 11:
+    if raw == [['bad']] or len(raw) != 15:
         return {'model': ['MODEL-BAD', raw], 'spec': None}
-    dec, allowed, spec_granted, wf, hdec, hallowed, pdec, pallowed, hp_default, hp_nopolicy, pa_noauthz = raw
+    (dec, allowed, spec_granted, wf, hdec, hallowed, pdec, pallowed, hp_default, hp_nopolicy, pa_noauthz,
+     hp_given, sec_pa, vep, vep_spec) = raw
     # the model that is compared with the implementation is the program REGENERATED from the source;
     # the third spec component records whether the hand-written reference model answers the same
     # (always 1 while C11_generated_*_is_model compile)
@@ -364,10 +421,23 @@ def from_wire(case, raw):
     #  policies in a real registry: they end in ACLAuthorizationPolicy); view_execution_permitted]
     #  then: request.has_permission(p) WITHOUT a context argument (request.context is the context); the same in a
     #  registry without any security policy; security.principals_allowed_by_permission without authorization policy]
-    model = [dec, sorted(allowed), pdec, sorted(pallowed), pdec, sorted(pallowed),
-             NA if case['permission'] == RESERVED else pdec, hp_default, hp_nopolicy, sorted(pa_noauthz)]
+    #  (all routes of pyramid/security.py are answered by the REGENERATED gen_has_permission / gen_sec_principals_allowed /
+    #   gen_view_execution_permitted; vep_spec = first-match decision for the permission of the view that would run)
+    if case.get('bad'):
+        # malformed input: only the permits() routes are observed; a default deny of the well-formed part becomes the
+        # exception raised at the malformed item (C11_malformed_permits_characterised)
+        raises = _trunc(case)[1]
+        fix = lambda d: ['EXC'] if (raises and d == [0]) else d
+        return {'model': [fix(dec), NA, fix(pdec), NA, fix(hp_given), NA, NA, fix(hp_default), NA, NA],
+                'spec': [spec_granted, wf, 1, None]}
+    single = case.get('vep') is None
+    model = [dec, sorted(allowed), pdec, sorted(pallowed), hp_given, sorted(sec_pa),
+             NA if (single and case['permission'] == RESERVED) else vep, hp_default, hp_nopolicy, sorted(pa_noauthz)]
     same = 1 if (dec == hdec and sorted(allowed) == sorted(hallowed)) else 0
-    return {'model': model, 'spec': [spec_granted, wf, same]}
+    v = vep_spec
+    while isinstance(v, list) and v:
+        v = v[0]
+    return {'model': model, 'spec': [spec_granted, wf, same, v if isinstance(v, int) else None]}
 
 
 # ------------------------------------------------------------ implementation
@@ -407,6 +477,31 @@ class _Loc:
 
 class _S(str):
     """a str subclass (like a member of a str-mixin Enum): equal to the plain string, of another exact type"""
+
+
+class _FalsyCallable:
+    """callable, falsy, not iterable: `if acl and callable(acl)` does not call it; iterating it raises TypeError"""
+
+    def __init__(self, aces):
+        self._aces = aces
+
+    def __call__(self):
+        return self._aces
+
+    def __bool__(self):
+        return False
+
+
+class _FalsyIterableCallable(list):
+    """an EMPTY list that is also callable (its call would return a real ACL): falsy, so never called; scanned as the
+    empty static ACL it is"""
+
+    def __init__(self, aces):
+        list.__init__(self)
+        self._aces = aces
+
+    def __call__(self):
+        return self._aces
 
 
 class _Iter:
@@ -539,8 +634,17 @@ def _build(case):
                     aces.append(_impl['DENY_ALL_LEGACY'])
                 else:
                     aces.append(tuple([act, a[1], _perm_value(pf)]))
+            bad = case.get('bad')
+            if bad and bad['loc'] == k and bad['kind'] in ('ace2', 'aceint'):
+                aces.insert(bad['at'], (_impl['Allow'], 'alice') if bad['kind'] == 'ace2' else 7)
             form = sloc['callable']
-            if form == 'gen':
+            if bad and bad['loc'] == k and bad['kind'] == 'aclnone':
+                value = None
+            elif bad and bad['loc'] == k and bad['kind'] == 'falsycallable':
+                value = _FalsyCallable(aces)
+            elif bad and bad['loc'] == k and bad['kind'] == 'falsyiterable':
+                value = _FalsyIterableCallable(aces)
+            elif form == 'gen':
                 value = (lambda aces=aces: (e for e in aces))     # a fresh one-shot iterator per call
             elif form == 'tuple':
                 value = tuple(aces)
@@ -572,9 +676,13 @@ def _build(case):
 
 def _dec(r, locs):
     """canonical form of a permits result: [granted] for the default deny, [granted, location index, ACE index]"""
+    if r is True:
+        return [1, 'true']                              # MultiView.__permitted__: the sub-view has no permission
     if not hasattr(r, 'ace'):
         if getattr(r, 'msg', None) == 'No security policy in use.':
             return [1 if r else 0, 'no-policy']
+        if str(getattr(r, 'msg', '')).startswith('Allowed: view name') and str(r.msg).endswith('(no permission defined)'):
+            return [1 if r else 0, 'no-perm']
         return [1 if r else 0, 'not-an-acl-result']
     if isinstance(r.ace, str):
         return [1 if r else 0]
@@ -583,12 +691,13 @@ def _dec(r, locs):
     return [1 if r else 0, d, i]
 
 
-def _deciders():
+def _deciders(case=None):
     h, w = _impl['helper'], _impl['world']
+    vep = (case or {}).get('vep')
     return [lambda c, ps, p: h.permits(c, ps, p),
             lambda c, ps, p: w.policy.permits(c, ps, p),
             lambda c, ps, p: w.has_permission(c, ps, p),
-            lambda c, ps, p: w.view_execution_permitted(c, ps, p),
+            lambda c, ps, p: w.view_execution_permitted(c, ps, p, vep),
             lambda c, ps, p: w.has_permission_default(c, ps, p),
             lambda c, ps, p: _impl['bare'].has_permission(c, ps, p)]
 
@@ -606,7 +715,18 @@ def run_impl(case):
         setup('quick')
     decs, sets = [], []
     ps, p = _args(case)
-    for f in _deciders():
+    if case.get('bad'):
+        ds = _deciders(case)
+        for f in (ds[0], ds[1], ds[2], ds[4]):
+            locs = _build(case)
+            try:
+                decs.append(_dec(f(locs[0], _pcontainer(case, ps), p), locs))
+            except (TypeError, ValueError):
+                decs.append(['EXC'])
+            except Exception as e:
+                decs.append(['EXC', type(e).__name__])
+        return [decs[0], NA, decs[1], NA, decs[2], NA, NA, decs[3], NA, NA]
+    for f in _deciders(case):
         locs = _build(case)
         try:
             decs.append(_dec(f(locs[0], _pcontainer(case, ps), p), locs))
@@ -618,7 +738,7 @@ def run_impl(case):
             sets.append(sorted(str(x) for x in f(locs[0], p)))
         except Exception as e:
             sets.append(['EXC', type(e).__name__])
-    if case['permission'] == RESERVED:
+    if case['permission'] == RESERVED and case.get('vep') is None:
         decs[3] = NA
     return [decs[0], sets[0], decs[1], sets[1], decs[2], sets[2], decs[3], decs[4], decs[5], sets[3]]
 
@@ -630,15 +750,28 @@ def spec_holds(case, obs, spec):
     if spec is None:
         return None
     spec_granted, wf = spec[0], spec[1]
-    for dec in (obs[0], obs[2], obs[4], obs[6], obs[7]):
-        if dec == NA:
-            continue
+    if case.get('bad'):
+        # outside the property's quantifier; what must still hold: no grant that is not the first-match grant of the
+        # well-formed part (spec_granted was computed on it)
+        return all(not (d and d[0] == 1) or spec_granted == 1 for d in (obs[0], obs[2], obs[4], obs[7]))
+    for dec in (obs[0], obs[2], obs[4], obs[7]):
         if dec and dec[0] == 'EXC':
             return False
         if (dec[0] == 1) != (spec_granted == 1):
             return False
+    # view_execution_permitted: when a view with a permission would run, the answer is the first-match decision for THAT
+    # permission; otherwise (no permission / no view / no matching sub-view) no ACL decision may be reported
+    vdec, vspec = obs[6], (spec[3] if len(spec) > 3 else None)
+    if not isinstance(vspec, int):
+        vspec = None                                    # (the engine's canonical form of None is [])
+    if vdec != NA:
+        if vspec is not None:
+            if vdec[0] == 'EXC' or (vdec[0] == 1) != (vspec == 1) or len(vdec) == 2:
+                return False
+        elif len(vdec) == 3 or (vdec[0] == 0):
+            return False
     if wf:
-        deciders = _deciders()
+        deciders = _deciders(case)
         for k, allowed in enumerate((obs[1], obs[3], obs[5])):
             if allowed and allowed[0] == 'EXC':
                 return False
@@ -683,6 +816,9 @@ def kinds(case, obs):
         k.append('acl-on-class-or-property')
     if any(loc.get('acelist') for loc in case['lineage'] if loc):
         k.append('ace-as-list')
+    if case.get('bad'):
+        k.append('malformed-%s' % case['bad']['kind'])
+    k.append('view-%s' % (case.get('vep') or {'kind': 'single'})['kind'])
     if any('share' in loc for loc in case['lineage'] if loc):
         k.append('has-shared-acl-object')
     if len(case['lineage']) > 6:
@@ -715,8 +851,12 @@ LEVEL_TEXT = ('Machine-checked theorems, for lineages and ACLs of any size, stat
               'C11_generated_*_is_model prove, by one induction per loop, that the regenerated program is the hand-written reference '
               'model; a semantics-preserving rewrite regenerates a different term and the same proofs go through, a change of meaning '
               'makes them fail. request.has_permission and security.principals_allowed_by_permission are modelled with their '
-              'no-policy branches (C11_has_permission_first_match, C11_sec_principals_allowed_consistent). location.lineage is '
-              'regenerated too (gen_lineage over a world of __parent__ pointers): C11_lineage_exact proves that, for a lineage of ANY '
+              'no-policy branches and regenerated from pyramid/security.py like view_execution_permitted (C11_generated_*_is_model, '
+              'C11_has_permission_first_match, C11_sec_principals_allowed_consistent, C11_view_execution_permitted_spec); '
+              'C11_has_permission_end_to_end: with a security policy, request.has_permission(p, ctx) is granted iff the first matching '
+              'ACE over the lineage of ctx for the effective principals is an Allow, every function involved regenerated. location.lineage is '
+              'regenerated too (gen_lineage over a world of __parent__ pointers; tied to the reference by two one-sided theorems, so '
+              'that rewrites which spend the loop fuel differently are absorbed): C11_lineage_exact proves that, for a lineage of ANY '
               'length, it yields exactly the resource, its parent, ... up to the first one whose __parent__ is None or missing; '
               'C11_world_permits_first_match / C11_world_allowed_consistent state the property end to end (lineage() then ACL scan); '
               'C11_chain_world_acls ties the world the harness builds to the ACL list of the case. The extracted program is '
@@ -725,7 +865,8 @@ LEVEL_TEXT = ('Machine-checked theorems, for lineages and ACLs of any size, stat
 LEVEL_NOTE = ('Trusted: Coq kernel; the translator (mechanical control-flow rules + the primitive table in the docstring of '
               'harness/c11/translate.py and translate_lineage.py -- the table is the trusted part; anything outside subset/table is '
               'a broken tie, never a guess); the primitives of Model/C11_base.v; Python harness; AllPermissionsList.__iter__/__eq__, the '
-              'ACLPermitsResult classes and the security.py entry points are shape-pinned and modelled by hand; module/class-level statements of the three anchor files are pinned as a '
+              'ACLPermitsResult classes, viewderivers._secured_view and MultiView.__permitted__/match are shape-pinned and modelled by '
+              'hand; behaviour on malformed ACLs (exceptions) is a hand-written extension outside the property; module/class-level statements of the three anchor files are pinned as a '
               'skeleton. Callable ACLs are represented by the list they return. The consistency theorem assumes ACE actions are '
               'Allow or Deny (necessary: refuted without). A TypeError of `p in <non-iterable>` is modelled as False and shown '
               'unreachable under the regenerated is_nonstr_iter (C11_normalisation_wraps_exactly_the_non_iterables).')
